@@ -16,7 +16,13 @@ ID = "C05"
 RULE = ("matrices: exhaustive 0/1 matrices (quick <= 3x4 and 4x3, thorough <= 3x5 and 4x4; degenerate 0-row / 0-column "
         "shapes for solve_consecutive_ones), random up to 6x7 (planted intervals under a hidden column permutation "
         "with 0-4 bit flips, duplicated and all-zero rows and columns, uniform), block-structured matrices with <= 8 "
-        "columns (nested P/Q nodes, rows cutting through 2-3 blocks), large planted up to 40x40 (positive: planted order "
+        "columns (nested P/Q nodes, rows cutting through 2-3 blocks); at >= 5 columns, where defects inside the PQ-tree "
+        "code show: all 3x5 matrices, every multiset of 4 rows over 5 columns in one arrangement, 'deep' planted "
+        "matrices (chains of overlapping intervals, nested and straddling intervals, 0-2 flips) with 5-7 columns "
+        "against the reference and with 8-12 columns (planted order certified by c1p_check => True is the proved "
+        "verdict; every returned order checked), tall near-miss matrices (7-10 rows, 5-9 columns, 1-3 flips), the same "
+        "matrices wrapped as instances for CI / DE (rows = ballots) and VI (rows = alternatives); large planted up to "
+        "40x40 (positive: planted order "
         "certified by c1p_check; negative: an embedded Tucker submatrix certified by c1p_core + c1p_core_refuted_sound); instances: every "
         "recogniser on all ordered profiles of <= 3 ballots over <= 3 alternatives, 4 alternatives with <= 3 ballots "
         "(quick: ballot multisets in one random arrangement; thorough: all ordered profiles), random m, n <= 6 (thorough "
@@ -27,10 +33,12 @@ RULE = ("matrices: exhaustive 0/1 matrices (quick <= 3x4 and 4x3, thorough <= 3x
         "c1p_decide(matrix) == ci_decide(instance). non-trivial = >= 3 columns (alternatives) and a row (ballot) with "
         ">= 2 ones and >= 1 zero")
 EXHAUSTIVE = {
-    "quick": "all 0/1 matrices with <= 3 rows and <= 4 columns, and 4x1..4x3; all ordered profiles with <= 3 ballots "
+    "quick": "all 0/1 matrices with <= 3 rows and <= 5 columns, and 4x1..4x3; every multiset of 4 rows over 5 columns "
+             "(one arrangement); all ordered profiles with <= 3 ballots "
              "over <= 3 alternatives, all ballot multisets of size <= 3 over 4 alternatives, for each of the 8 "
              "recognisers",
-    "thorough": "all 0/1 matrices up to 3x5 and 4x4; all ordered profiles with <= 3 ballots over <= 4 alternatives for "
+    "thorough": "all 0/1 matrices up to 3x6 and 4x4; every multiset of 4 and of 5 rows over 5 columns (one arrangement "
+                "each); all ordered profiles with <= 3 ballots over <= 4 alternatives for "
                 "each of the 8 recognisers",
 }
 TRUSTED = [
@@ -44,8 +52,9 @@ TRUSTED = [
 ASSUMPTIONS = [
     "instance.num_alternatives == len(instance.alternatives_name); approved alternatives are keys of alternatives_name",
     "isC1P is only called with >= 1 row and >= 1 column (it raises IndexError on a matrix without rows or columns)",
-    "2PART: 'at most two distinct approval sets' is read on profiles with >= 1 ballot (is_2_part answers False on a "
-    "profile without ballots; reported, theorem two_part_no_ballots)",
+    "2PART on a profile WITHOUT ballots: the reference (at most two distinct approval sets: zero qualifies) says "
+    "True, is_2_part says False (theorem two_part_no_ballots_refuted; reported as a finding). These 4 cases are "
+    "generated only once known_findings.json holds an OPEN C05 entry with match.predicate 'part2_no_ballots'",
     "ballots of the two partition domains are also exercised with empty approval sets; the theorems do not need the "
     "non-emptiness hypothesis",
 ]
